@@ -26,7 +26,7 @@ SCRIPT = {"n_orders": (2, 9), "p_cancel": 0.4, "p_update": 0.2, "p_replace": 0.3
 
 
 def plan(tier, seed):
-    n = 2000 if tier == "quick" else 64000
+    n = 6000 if tier == "quick" else 80000
     out = []
     for i in range(n):
         ev = i % 4 == 3
